@@ -571,6 +571,14 @@ def run(ctx, chk):
                 keep.append(v)
         chk.violations[:] = keep
     jitsem.suppress_subsumed(ctx, chk, ('C01.1', 'C01.2', 'C01.3', 'C01.5', 'C01.6', 'C01.7'))
+    # ---- rule 13: what a "block" is must be the same for both engines, or equal instructions do not add up to equal blocks
+    from ..report import borrow
+    borrow(ctx, chk, 'C01.13', 'D', 'block extent: the translator and the interpreter cut a block at the same instruction '
+           '(same terminators, same region ends: a block that starts in the fixed bank never runs on into the switchable '
+           'one) - the clauses C04.3 and C03.5, evaluated here as well', 'c04', ['C04.3'], floor=8)
+    borrow(ctx, chk, 'C01.13', 'D', 'block extent: the translator and the interpreter cut a block at the same instruction '
+           '(same terminators, same region ends: a block that starts in the fixed bank never runs on into the switchable '
+           'one) - the clauses C04.3 and C03.5, evaluated here as well', 'c03', ['C03.5'], floor=8)
     chk.assumptions += ['x86-64 semantics of the template bytes are not interpreted: a wrong opcode byte inside an emit_* '
                         'template is outside the reach of this check (DESIGN 2.4); the 60-entry effect table in '
                         'gbsa/emitmodel.py is trusted and fails closed on unknown templates',
